@@ -128,6 +128,7 @@ package interp
 //@   opt opaque-calls = *
 //@   opt opaque-havoc = none
 //@   requires [assume] n != nil
+//@   modifies n.rval, n.typ
 //@   ensures untyped-value-is-rejected: old(n.typ) == nil ==> err != nil
 //@   ensures accepted-only-if-assignable: err == nil && typ != nil && typ.str != "*unsafe2.dummy" ==> n.typ.assignableTo(typ)
 //@   ensures constant-representable-in-a-basic-destination: err == nil && old(n.typ != nil && n.typ.untyped && n.typ.cat != nilT && isC(n.rval)) && typ != nil && !isInterface(typ) && !typ.untyped && basicTarget(typ) ==> representableConst(old(cOf(n.rval)), typ.TypeOf())
